@@ -40,9 +40,10 @@ package jschema
 //@   defines forall q *stdBytes.Buffer :: !old(q.pooled) ==> !q.pooled && q.n == old(q.n) && q.last == old(q.last) && q.prev == old(q.prev)
 //@ func (*exampleBuilder).buildObjectKey(k)
 //@   props C11 C15
-//@   trusted "key example: arbitrary effect; ASSUMED only the pool protocol (a checked-out buffer is touched by its owner alone)"
+//@   trusted "key example: arbitrary effect; ASSUMED only the pool protocol (a checked-out buffer is touched by its owner alone) and that bytes which existed before the call are not overwritten (examples already returned are owned by their receiver: the ownership post proved for the object/array builders)"
 //@   maypanic
 //@   modifies *
+//@   keeps byte
 //@   defines forall q *stdBytes.Buffer :: !old(q.pooled) ==> !q.pooled && q.n == old(q.n) && q.last == old(q.last) && q.prev == old(q.prev)
 
 // C15: "separators decided by what was emitted": the text of an object / array
